@@ -30,9 +30,10 @@ ENTRIES = {
                 "outcome must be allowed and the sequence-numbered log of each run is validated by Trace_Executor.",
         "design_ref": "7 C42",
         "note": "No schedule points in lumina-utils: interleavings are whatever the multi-thread runtime and the seeded "
-                "jitter produce (not exhaustive). 'Task ended' is observed through the Drop of a sentinel owned by the "
-                "spawned future, which by Rust's drop order precedes the guard's drop exactly if the code keeps "
-                "`let _guard = guard;` first. Hang bound 30 s per run. wasm32 implementation not covered.",
+                "jitter produce (not exhaustive). 'Task ended' is logged at the END of the deliberately slow (20-50 ms) Drop "
+                "of a sentinel owned by the spawned future; half of the joiners run on their own OS thread, so a join "
+                "that resolves before the future and its state are gone (finished, panicked or cancelled task; spawn and "
+                "spawn_cancellable) is observed deterministically (class join-before-end), not in a microsecond window. Hang bound 30 s per run. wasm32 implementation not covered.",
         "technique": "TLA+ spec + TLC (safety, liveness); TLC-derived outcome sets checked on the real executor; TLC trace validation of sequence-numbered logs",
     },
 }
